@@ -33,7 +33,7 @@ REQUIRED_THEOREMS = [
     # Props/C14b.lean: axes names, derived / cached attributes of a restored instance
     "axes_cartesian", "axes_polar", "axes_spherical", "axes_cylindrical", "numAxesInit_eq", "gridEq_axes",
     "construct_coherent", "read_coherent", "read_value_fresh", "restore_eq_construct", "reachable_coherent",
-    "restored_instance_fresh", "pickle_keeps_stale_attribute",
+    "restored_instance_fresh", "pickle_keeps_stale_attribute", "cellVolumes_fresh_eq_C12", "restored_cellVolumes_C12",
 ]
 EXTRA_PROP_FILES = ["C14b"]
 RULE = ("random grids of every class (UnitGrid, CartesianGrid 1-3d, PolarSymGrid, SphericalSymGrid, "
